@@ -2,7 +2,8 @@
    encoding of every record).  Only statements; each is closed by [exact] of a
    lemma proved in Proofs/Present*.v.  The model is Model/Present.v. *)
 From Dns Require Import Model.Present.
-From Dns Require Import Proofs.PresentEscProofs Proofs.PresentCodeProofs Proofs.PresentLexProofs Proofs.PresentTxtProofs.
+From Dns Require Import Proofs.PresentEscProofs Proofs.PresentCodeProofs Proofs.PresentLexProofs Proofs.PresentTxtProofs
+     Proofs.PresentWordProofs Proofs.PresentGrammarProofs Proofs.PresentRecordProofs.
 Open Scope N_scope.
 
 (* ---- character-strings: all 256 octet values, any length ---- *)
@@ -107,3 +108,80 @@ Proof. exact class_string_reread. Qed.
 Theorem c05_bitmap_type_reread :
   forall t, t < 65536 -> t <> 0 -> t <> 65535 -> bitmap_tok (show_type t) = Some t.
 Proof. exact bitmap_tok_show. Qed.
+
+(* ---- names ---- *)
+
+(* A name in the form UnpackDomainName produces (any labels of any octets) is
+   printed by sprintName unchanged, and it is one word for the lexer. *)
+Theorem c05_name_from_wire :
+  forall ls : list bytes, Forall wfb ls ->
+    sprint_name (show_name ls) = show_name ls /\ word_ok (show_name ls) = true.
+Proof. intros ls H. split; [now apply sprint_name_canonical|now apply show_name_word_ok]. Qed.
+
+(* ---- the presentation grammar of the regular types ---- *)
+
+(* Well-formed values (PresentGrammarProofs.wf_val): integers within their
+   field width; names whose printed form is one word that toAbsoluteName
+   returns as it stands; four address octets; character-strings denoting at
+   most 255 octets each; hex/base64 text that is one word; types other than 0
+   and 65535 in a type list.  Layouts (wf_playout): simple fields followed by
+   at most one field reading to the end of the line, or a lone list of quoted
+   strings.  Then: what present_fields prints, split by the zone lexer, is
+   read by parse_fields as the same values in the printer's normal form. *)
+Theorem c05_present_roundtrip :
+  forall (G : list pfield) (vs : list pval),
+    wf_playout G = true -> Forall2 wf_val G vs ->
+    parse_fields G (lex_rdata (present_fields G vs ++ [10])) = Ok (norm_all G vs).
+Proof. exact present_roundtrip. Qed.
+
+(* The normal form denotes the same octets / numbers / types (names: see
+   c05_name_from_wire and c05_norm_from_wire). *)
+Theorem c05_norm_denotes_same :
+  forall f v, wf_val f v ->
+    match f with P_name => True | _ => meaning f (norm_val f v) = meaning f v end.
+Proof. exact norm_meaning. Qed.
+
+(* Values as UnpackRR produces them are already in normal form. *)
+Theorem c05_norm_from_wire :
+  (forall ls, Forall wfb ls -> norm_val P_name (V_name (show_name ls)) = V_name (show_name ls)) /\
+  (forall ws, Forall wfb ws -> norm_val P_qstrs (V_strs (map esc_wire ws)) = V_strs (map esc_wire ws)).
+Proof. exact norm_from_wire. Qed.
+
+(* Every layout of the table (49 types) is well-formed and belongs to a registered type. *)
+Theorem c05_layouts_wf :
+  forall t G, playout t = Some G -> wf_playout G = true /\ is_registered t = true.
+Proof. intros t G H. split; [now apply (layouts_wf t)|now apply (proj2 layouts_registered t G)]. Qed.
+
+(* ---- whole records ---- *)
+
+(* The header printed by RR_Header.String (owner, TTL, class, type mnemonics)
+   is read back by the lexer and ZoneParser.Next as the same four values; the
+   RDATA tokens follow after one blank. *)
+Theorem c05_hdr_roundtrip :
+  forall h rd, hdr_ok h -> odd_type (h_type h) = false ->
+    parse_hdr (lex_line (present_hdr h ++ rd)) = Ok (hdr_norm h, TBlank :: lex_rdata rd).
+Proof. exact hdr_roundtrip. Qed.
+
+(* The same with CLASSnnn and TYPEnnn, for every class and type code. *)
+Theorem c05_hdr_roundtrip_numeric :
+  forall h rd, hdr_ok h ->
+    parse_hdr (lex_line (present_hdr_3597 h ++ rd)) = Ok (hdr_norm h, TBlank :: lex_rdata rd).
+Proof. exact hdr_roundtrip_numeric. Qed.
+
+(* NewRR (rr.String()) for a record of a regular type: same owner, TTL,
+   class, type, and the normal form of every field. *)
+Theorem c05_record_roundtrip :
+  forall h G vs,
+    hdr_ok h -> odd_type (h_type h) = false -> is_registered (h_type h) = true ->
+    playout (h_type h) = Some G -> wf_playout G = true -> Forall2 wf_val G vs ->
+    first_text (all_items G vs) <> b_generic ->
+    parse_rr (present_rr h G vs) = Ok (hdr_norm h, R_fields (norm_all G vs)).
+Proof. exact record_roundtrip. Qed.
+
+(* RFC 3597: for every type and class code and every RDATA of up to 65535
+   octets, the generic text is accepted and denotes exactly those octets. *)
+Theorem c05_generic_roundtrip :
+  forall h w, hdr_ok h -> wfb w -> lenN w < 65536 ->
+    parse_rr (present_rr_3597 h w) = Ok (hdr_norm h, R_generic (hex_bytes w)) /\
+    unhex (string_of_bytes (hex_bytes w)) = w.
+Proof. exact generic_roundtrip. Qed.
